@@ -35,6 +35,8 @@ THEOREMS = [
     "C17.repr_file",
     "C17.repr_injective",
     "C17.incremental_counterexample",
+    "C17.incremental_partial",
+    "C17.incremental_partial_unlabelled",
     "C17.message_counterexample",
     "C17.message_partial",
     "C17.filename_suffix",
@@ -43,6 +45,9 @@ THEOREMS = [
     "C17.filename_default_partial",
 ]
 PARTIAL = {
+    "C17.incremental_partial": "full statement C17.incremental_statement is false (F5, C17.incremental_counterexample): the per-revision branch_labels sets are left out of the view; "
+                               "that the extended history loads (cycle detection accepts it) is a hypothesis, established on every generated case by the correspondence, not proved",
+    "C17.incremental_partial_unlabelled": "full view (labels included) for histories and new revisions without branch labels; same load hypothesis",
     "C17.message_partial": "full statement C17.message_statement is false (F12): the template pastes message, ids and date unescaped; proved for texts without double quote, backslash and NUL",
     "C17.filename_default_partial": "full statement C17.filename_statement is false: a revision id starting with '.#' or '__init__.' gives a file name the loader skips (generate_revision then returns None); proved for the default template and ids starting with a letter or digit",
 }
@@ -335,8 +340,10 @@ def check_call(ctx, env, sd, model_m_hist, seg_calls, call, rid, dt, fresh_befor
            "file_template": env.file_template, "trunc": env.trunc, "locations": len(env.locations), "stream": stream}
     try:
         req = G.requested(fresh_before, call, rid)
+        unordered = req.pop("down_unordered")
     except Exception as e:  # the arguments do not resolve: nothing is requested
         req = None
+        unordered = False
         inp["request_error"] = rev_impl.err_name(e)
     with fixed_date(dt):
         res = G.run_call(env, sd, call, rid)
@@ -382,6 +389,8 @@ def check_call(ctx, env, sd, model_m_hist, seg_calls, call, rid, dt, fresh_befor
         ctx.fail(inp, "attrs: the requested revision id is not in the reloaded directory", impl={"ids": [r["id"] for r in fv["revs"]]})
     else:
         got = G.file_attrs(fr)
+        if req is not None and unordered and sorted(got["down"]) == sorted(req["down"]):
+            req["down"] = got["down"]  # `heads`: the order in which the heads are written is not part of the request
         if req is not None and got != req:
             ctx.fail(inp, "attrs: the reloaded revision is not the requested one", impl={"loaded": got, "requested": req})
     return out, fresh
